@@ -130,7 +130,7 @@ func record(a *hx.Args, res *hx.Result) {
 				if uerr != nil && before != after {
 					res.Violation("failed-update-changed-witness", fmt.Sprintf("Witness.Update returned %v but changed the witness", uerr), hx.M{"history": h, "step": s})
 				}
-				emit(hx.M{"ev": "apply", "w": i, "k": k, "class": errClass(uerr), "idx": after.idx, "t": after.t, "valid": w.valid(wits[i])})
+				emit(hx.M{"ev": "apply", "w": i, "k": k, "class": errClass(uerr), "idx": after.idx, "t": after.t, "valid": w.valid(wits[i]), "up": after.up})
 				res.Count("rec-apply:" + errClass(uerr))
 			default: // prepend
 				k := 1 + rng.Intn(nu)
